@@ -139,6 +139,16 @@ pub struct ProgConfig {
     fc: FieldChipConfig,
 }
 
+impl ProgConfig {
+    /// Indices of the advice columns `x_cols`, `z_cols` of the foreign-field chip.
+    pub fn field_cols(&self) -> (Vec<usize>, Vec<usize>) {
+        (
+            self.fc.x_cols.iter().map(|c| c.index()).collect(),
+            self.fc.z_cols.iter().map(|c| c.index()).collect(),
+        )
+    }
+}
+
 pub struct ProgCircuit<F: CircuitField, K: CircuitField> {
     pub ops: Vec<Op>,
     pub outcome: RefCell<Outcome>,
